@@ -150,6 +150,9 @@ pub struct Env {
     pub preheld: Preheld,
     /// the pool asks again for the repair of the same block right after this request position
     pub retrigger_after: Option<usize>,
+    /// the leader equivocated: the other validly signed block of the same slot is repaired
+    /// concurrently (0 = no, 1 = requested right after, 2 = requested right before)
+    pub sibling: u8,
 }
 
 /// Runs one history: hostile deviations at the given request positions, everything else answered correctly.
@@ -200,6 +203,15 @@ fn run_history_env(fx: &Fixture, deviations: &BTreeMap<usize, Hostile>, env: Env
                     let _ = peer_store.add_shred_from_dissemination(s.clone()).await;
                 }
             }
+            // the honest peer also holds the leader's other block of the slot (obtained by repair)
+            let id2: BlockId = (Slot::new(SLOT), DoubleMerkleTree::new(fx.alt_data.iter().map(|set| set[0].slice_root())).get_root());
+            if env.sibling > 0 {
+                for set in &fx.alt_data {
+                    for s in set.iter() {
+                        let _ = peer_store.add_shred_from_repair(id2.1.clone(), s.clone()).await;
+                    }
+                }
+            }
             let pbs: SharedBlockstore = Arc::new(RwLock::new(peer_store));
             let (pnet, pout, pin) = endpoint::<RepairResponse, RepairRequest>();
             let handler = RepairRequestHandler::new(fx.epoch.vei(0), pbs, pnet);
@@ -222,8 +234,16 @@ fn run_history_env(fx: &Fixture, deviations: &BTreeMap<usize, Hostile>, env: Env
                 }
             };
 
+            if env.sibling == 2 {
+                trigger_tx.send(id2.clone()).await.unwrap();
+                settle().await;
+            }
             trigger_tx.send(id.clone()).await.unwrap();
             settle().await;
+            if env.sibling == 1 {
+                trigger_tx.send(id2.clone()).await.unwrap();
+                settle().await;
+            }
             let mut pending: VecDeque<RepairRequest> = VecDeque::new();
             let mut seen_types: Vec<MReqType> = Vec::new();
             let mut earlier_correct: Vec<RepairResponse> = Vec::new();
@@ -242,7 +262,7 @@ fn run_history_env(fx: &Fixture, deviations: &BTreeMap<usize, Hostile>, env: Env
                         pending.push_back(r);
                     }
                 }
-                stored = blockstore.read().await.get_block(&id).is_some();
+                stored = blockstore.read().await.get_block(&id).is_some() && (env.sibling == 0 || blockstore.read().await.get_block(&id2).is_some());
                 if task.is_finished() {
                     break;
                 }
@@ -417,6 +437,10 @@ fn judge_env(report: &Report, fx_name: &str, devs: &BTreeMap<usize, Hostile>, o:
     if env.preheld != Preheld::Nothing {
         desc.push(format!("preheld:{:?}", env.preheld));
         class.push(format!("preheld:{:?}", env.preheld));
+    }
+    if env.sibling > 0 {
+        desc.push(format!("sibling-block-of-the-slot-repaired-concurrently:{}", if env.sibling == 1 { "requested-after" } else { "requested-before" }));
+        class.push("sibling-block-repaired-concurrently".to_string());
     }
     if let Some(p) = env.retrigger_after {
         desc.push(format!("repair-requested-again-after#{p}"));
@@ -668,7 +692,7 @@ pub fn run(tier: Tier) -> i32 {
         // environment variants: dissemination shreds already held, repair requested again
         let mut env_jobs: Vec<(BTreeMap<usize, Hostile>, Env)> = Vec::new();
         for pre in [Preheld::SameBlockPartial, Preheld::ConflictingBlock] {
-            let env = Env { preheld: pre, retrigger_after: None };
+            let env = Env { preheld: pre, retrigger_after: None, sibling: 0 };
             env_jobs.push((BTreeMap::new(), env));
             let env_positions: Vec<usize> = match tier {
                 Tier::Quick => vec![1, 2, 2 + nslices, 3 + nslices, 1 + nslices + 20],
@@ -686,13 +710,23 @@ pub fn run(tier: Tier) -> i32 {
             Tier::Thorough => (1..nreq).collect(),
         };
         for p in again {
-            let env = Env { preheld: Preheld::Nothing, retrigger_after: Some(p) };
+            let env = Env { preheld: Preheld::Nothing, retrigger_after: Some(p), sibling: 0 };
             env_jobs.push((BTreeMap::new(), env));
             env_jobs.push(([(p + 1, Hostile::DuplicateAnswer)].into_iter().collect(), env));
             env_jobs.push(([(p + 1, Hostile::Nack)].into_iter().collect(), env));
             if tier == Tier::Thorough {
                 env_jobs.push(([(p + 1, Hostile::NackReplay)].into_iter().collect(), env));
                 env_jobs.push(([(p + 1, Hostile::OtherSignedSlice)].into_iter().collect(), env));
+            }
+        }
+        // the leader's other block of the slot under repair at the same time
+        for sib in [1u8, 2] {
+            let env = Env { preheld: Preheld::Nothing, retrigger_after: None, sibling: sib };
+            env_jobs.push((BTreeMap::new(), env));
+            for p in tier.pick(vec![1usize, 2, 3, 4, 2 * nslices + 3, 2 * nslices + 40], (1..(2 * nreq)).step_by(3).collect()) {
+                for h in [Hostile::Nack, Hostile::Silence, Hostile::DuplicateAnswer, Hostile::OtherSignedSlice] {
+                    env_jobs.push(([(p, h)].into_iter().collect(), env));
+                }
             }
         }
         let env_outcomes: Vec<(BTreeMap<usize, Hostile>, Env, Outcome)> = env_jobs.into_par_iter().map(|(d, e)| { let o = run_history_env(&fx, &d, e); (d, e, o) }).collect();
@@ -708,7 +742,7 @@ pub fn run(tier: Tier) -> i32 {
     let cov = json!({
         "evaluations": evals,
         "distinct_nontrivial": evals,
-        "rule": "real Repair loop and real RepairRequestHandler in a paused single-threaded runtime; default = every request answered correctly by the honest peer; every history with 1 hostile answer (13 kinds: sustained NACK replay, NACK, silence, wrong variant, invalid proof, wrong index, wrong root, replay of another answer, shred/root of another validly signed slice of the leader, same root with other last flag, unsolicited answer first, duplicate answer, corrupted signature / over-long proof / inflated slice count) at every listed request position, and pairs (thorough: also triples) of hostile answers on a position/kind subset; environment variants (victim already holds a few dissemination shreds of the same block / of a conflicting block of the leader; the pool requests the same repair again at various points); after the last hostile answer every request is answered correctly and up to 4 request time-outs may elapse: the repair task must be alive, nothing foreign may be stored under the requested id and the block must end up stored; plus the responder sweep (request kind x index x holding state x sender); every history / responder case is distinct and non-trivial",
+        "rule": "real Repair loop and real RepairRequestHandler in a paused single-threaded runtime; default = every request answered correctly by the honest peer; every history with 1 hostile answer (13 kinds: sustained NACK replay, NACK, silence, wrong variant, invalid proof, wrong index, wrong root, replay of another answer, shred/root of another validly signed slice of the leader, same root with other last flag, unsolicited answer first, duplicate answer, corrupted signature / over-long proof / inflated slice count) at every listed request position, and pairs (thorough: also triples) of hostile answers on a position/kind subset; environment variants (victim already holds a few dissemination shreds of the same block / of a conflicting block of the leader; the pool requests the same repair again at various points; the equivocating leader's other block of the slot is repaired concurrently); after the last hostile answer every request is answered correctly and up to 4 request time-outs may elapse: the repair task must be alive, nothing foreign may be stored under the requested id and the block must end up stored; plus the responder sweep (request kind x index x holding state x sender); every history / responder case is distinct and non-trivial",
         "exhaustive": true,
         "families": fam,
         "samples": samples.items,
